@@ -233,6 +233,19 @@ func init() {
 				xtags(w, g.mutate([]byte("?OTR|0000ABCD|00001234,00001,00002,data,")))
 				xtags(w, g.mutate(tagMsg(0, g.r.Uint32(), g.r.Uint32(), g)))
 			}
+			// line breaks inside the base64 text are skipped by the decoder: the text is long, what it
+			// decodes to is shorter than a header
+			for _, m := range []string{"?OTR:AA==\n.", "?OTR:\r\n\r\n\r\n.", "?OTR:AAM=\n.", "?OTR:AAMD\r\n\r\n.", "?OTR:AAMDAAAB\nAA==\n\n."} {
+				olog.ok("C15")
+				if o, t, ok := xtags(w, []byte(m)); ok {
+					olog.viol("C15", "extract-tags-from-untagged", fmt.Sprintf("ExtractInstanceTags(%q) = (%#x,%#x,true): the message is shorter than a header", m, o, t))
+				}
+			}
+			full := tagMsg(0, 0x11223344, 0x55667788, g)
+			broken := append(append(append([]byte{}, full[:20]...), '\r', '\n'), full[20:]...)
+			if o, t, ok := xtags(w, broken); !ok || o != 0x55667788 || t != 0x11223344 {
+				olog.viol("C15", "extract-wrong-tags", fmt.Sprintf("ExtractInstanceTags of a message with a line break inside its base64 text = (%#x,%#x,%v)", o, t, ok))
+			}
 			xtags(w, []byte("?OTR:"))
 			xtags(w, []byte("?OTR:AAIDAAAA."))
 		}
